@@ -46,5 +46,10 @@ def run(rep, tier, seed):
             sh = {("QA", 0): "deep6", ("QA", 1): "deep6", ("QB", 1): "same_as_0"}
             drive.run_op(rep, hist.HistHarness(system, pm, weakly, N, min(M, 1) if quick else M, 2, [[(1, 0, "q0")], [(1, 1, "q1"), (2, 0, "q0")]], shapes=sh,
                                                label="history[look-alike deep formulas] %s/%s %s" % (system, pm or "-", "ext" if weakly else "strict")))
+    # asked alone or in a batch UNDER A PER-QUERY BUDGET: one budget-expiry event (clock jump at
+    # any clock read) may flag at most the query under evaluation, not its batch neighbours
+    for system, pm in [("system-w", "rc2"), ("lex_inf", "rc2"), ("c-inference", "rc2")] + ([] if quick else [("system-w", "z3"), ("lex_inf", "z3")]):
+        h = hist.BudgetHarness(system, pm, False, 2, 1, 2, [[(1, 0, "q0"), (2, 1, "q1")], [(2, 1, "q1")]], budgets=[dict(inference_timeout=1), dict(inference_timeout=1)], jumps=1, level="L1")
+        drive.run_op(rep, h)
     rep.assumptions.append("parallel evaluation: multiprocessing stand-in runs each worker on a deep copy of the operator (fork isolation); 'hung after join' is a free decision per worker; real scheduling and signal delivery are outside the claim")
     rep.assumptions.append("bounds: one manager, histories of <=3 calls over <=2 symbolic queries, N=2, M<=2")
